@@ -10,7 +10,7 @@ EXHAUSTIVE = True
 RULE = ("histories of registry operations over 3 names, 3 files and a pool of valid/invalid template sources: "
         "register_template_string / register_partial / register_template / register_template_file / unregister / clear, file "
         "rewrite / delete, dev-mode and prevent_indent toggles, clone-and-diverge; after EVERY step has_template, the keys of "
-        "get_templates and a render of every name are observed; EXHAUSTIVE for all sequences of length ≤ 3 (thorough: ≤ 4) "
+        "get_templates, a render of every name and an INCLUSION of every name from a template string (through the four string entry points in turn) are observed; EXHAUSTIVE for all sequences of length ≤ 3 (thorough: ≤ 4) "
         "over a reduced alphabet of 14 operations, random sequences up to length 12 beyond; oracle = a map name -> "
         "registration (compiled text with the prevent_indent in force | tracked file) kept by the generator; real files in a "
         "scratch directory; non-trivial = history with at least one successful registration; distinct by history")
@@ -123,6 +123,9 @@ def rand_op(rng, nregs):
     return {"op": k, "reg": reg}
 
 
+UNNAMED_APIS = ["render_template", "render_template_with_context", "render_template_to_write", "render_template_with_context_to_write"]
+
+
 def build(history, idn):
     """interleave observations after every step and compute the expected observations"""
     regs = [RefReg()]
@@ -145,6 +148,11 @@ def build(history, idn):
                 expect.append(("has", n in r.m))
                 ops.append({"op": "render", "reg": ri, "api": "render", "name": n, "data": enc({"x": 1})})
                 expect.append(("render", ri, n, snapshot(r, fs)))
+                # … and the same name INCLUDED as a partial from a template string, through each of the four entry points that
+                # take a string (in turn): a tracked name follows its file there as well
+                api = UNNAMED_APIS[(len(ops) + NAMES.index(n)) % 4]
+                ops.append({"op": "render", "reg": ri, "api": api, "src": "{{> %s}}!" % n, "data": enc({"x": 1})})
+                expect.append(("include", ri, n, snapshot(r, fs)))
     case = {"kind": "session", "regs": [{"escape": "none"}], "ops": ops, "id": idn}
     return case, {"expect": expect, "hist": [o["op"] for o in history], "len": len(history)}
 
@@ -316,6 +324,22 @@ def oracle(case, meta, impl):
             else:
                 if not (got.get("r") == "rerr" and got.get("reason") == e[1]):
                     v.append("render(%s): expected error %s got %s %r" % (exp[2], e[1], got.get("r"), got.get("out", got.get("reason"))))
+        elif exp[0] == "include":
+            e = ref_render(exp[2], exp[3])
+            snap = exp[3]
+            if snap["dev"] and any(ent[0] == "file" and (snap["fs"].get(ent[1]) is None or not valid(snap["fs"].get(ent[1]))) for ent in snap["m"].values()):
+                e = ("err", "TemplateError")      # a dev-mode render loads every tracked file first
+            if e is None:
+                continue
+            if e[0] == "ok":
+                if not (got.get("r") == "ok" and got.get("out") == e[1] + "!"):
+                    v.append("%s('{{> %s}}!'): expected %r got %s %r" % (op["api"], exp[2], e[1] + "!", got.get("r"), got.get("out", got.get("reason"))))
+            else:
+                want = "PartialNotFound" if e[1] == "TemplateNotFound" else e[1]
+                if want == "CannotIncludeSelf":
+                    continue        # the including string is another template: whether the inner inclusion still counts as "self" is not stated
+                if not (got.get("r") == "rerr" and got.get("reason") == want):
+                    v.append("%s('{{> %s}}!'): expected error %s got %s %r" % (op["api"], exp[2], want, got.get("r"), got.get("out", got.get("reason"))))
         if len(v) > 3:
             break
     return v
